@@ -52,6 +52,10 @@ class StmtMixin:
             base = tgt.value
             cur = self.ev(base, st)
             k = self.ev(tgt.slice, st)
+            wrap = None
+            if isinstance(cur, T) and isinstance(cur.sort, tuple) and cur.sort[0] == "Opt" and isinstance(cur.sort[1], tuple):
+                wrap = cur.sort
+                cur = unopt(cur)
             if isinstance(cur, T) and isinstance(cur.sort, tuple) and cur.sort[0] in ("Map", "Array", "Set") and isinstance(k, T):
                 k = self.coerce(k, cur.sort[1], "subscript-store")
                 if cur.sort[0] == "Map":
@@ -61,6 +65,8 @@ class StmtMixin:
                 else:
                     v = self.coerce(val, cur.sort[2], "subscript-store")
                 new = T(cur.sort, f"(store {cur.s} {k.s} {v.s})")
+                if wrap:
+                    new = some(self.ctx, new)
                 if self.store_back(base, new, st):
                     return
             if isinstance(cur, T) and isinstance(cur.sort, tuple) and cur.sort[0] == "Seq" and isinstance(k, T) and k.sort == INT:
